@@ -15,6 +15,12 @@ CLAIMED["C09"] = ("Matrix algebra of the Mt4 model as Lean theorems over every c
 CLAIMED["C10"] = ("Every rotation route of the model (Pt2::rotated, Pt3::rotated_x/y/z, rot_x/y/z_matrix through Mt4*Pt4 and Mt4*Pt3, rot_vec) is proved equal to the reference right-handed rotation / Rodrigues' formula for every (c,s) over any commutative ring; isometry, composition (a then b = a+b) and inverse (-a) for c^2+s^2=1 and over R in degrees with Mathlib's sin_add/cos_add; look_at_matrix_lh is proved a proper rotation (orthonormal columns, det 1) taking +Z to the unit direction and +X perpendicular to up for eye != center and up not parallel, and for up=+Z with exactly vertical directions. Tied to the crate by correspondence (all routes for one (point, angle, axis) in one case) and route-agreement oracles.",
   "OpenSCAD's rotate() is represented by the hand-transcribed standard right-handed matrices (Spec/Rotation.lean); real arithmetic, not IEEE (sin(180 deg) is 1.2e-16 in doubles, 0 in the theorem); in-place/list/Polyhedron forms are tied by the harness (they are maps in the model).",
   "Lean 4 theorems over commutative rings and R (ring, linear_combination, Mathlib trig) + differential correspondence harness", "5/C10")
+CLAIMED["C01"] = ("Emission is modelled piece by piece (one group of tokens per write! of scad.rs) and the model's text equals the crate's text character for character on every generated tree (all 25 operations, fan-out 0..6 including childless operators, empty lists, sequences, deep chains, macro- and Viewer-built trees); a Lean transcription of OpenSCAD's statement grammar (Spec/OpenScad.lean) parses the implementation's text on every case and the parsed shape is compared with the tree. Theorems: see evidence (obligations); the character-level round trip parse(emit t) = t is being extended.",
+  "OpenSCAD's grammar is a hand transcription (no OpenSCAD binary in the sandbox); Rust's Display for f64/u64/bool is an external parameter of the model (its text is passed in and checked against the numeral grammar); theorems are about the model, tied by exact text comparison.",
+  "Lean 4 model of the emitter + Lean-executed OpenSCAD parser as oracle + differential correspondence harness", "5/C01")
+CLAIMED["C02"] = ("OpenSCAD's string lexer reads the library's escaped strings back to the same characters for every NUL-free string (theorem by induction on the string); every ScadColor variant prints an SVG colour keyword except Browns and every alignment/direction keyword is one text() accepts (decide +kernel over variant lists regenerated from scad.rs each run); integers below 2^53 survive OpenSCAD's double. On every generated tree the implementation's text is parsed, bound by OpenSCAD's positional/named rules (Spec/OpenScadBind.lean) and decoded back to the node, and compared field by field — numbers through an exact correctly-rounded decimal-to-binary64 reader.",
+  "Binding tables and number/string lexing are hand transcriptions of the OpenSCAD manual/lexer; number round trip relies on Rust's Display (external) and is checked per run, not proved; known findings: Browns, u64 above 2^53.",
+  "Lean 4 theorems (induction, decide +kernel over regenerated enum tables) + Lean-executed binder/decoder as oracle + differential correspondence harness", "5/C02")
 NOT_YET = {
 }
 ALL = ["C%02d" % i for i in range(1, 20)]
